@@ -2,9 +2,11 @@ from .model import ModelCompiler, Model  # noqa
 from .evaluator import Evaluator  # noqa
 
 
-from .xlfunctions.xl import FUNCTIONS, register  # noqa: F401
 from .xlfunctions.xlerrors import *  # noqa: F401, F403
 from .xlfunctions.func_xltypes import *  # noqa: F401, F403
+# After the star imports: both modules above define a helper that is also
+# called `register` and would otherwise shadow the function registry's.
+from .xlfunctions.xl import FUNCTIONS, register  # noqa: F401, E402
 
 # Make sure to register all functions
 from .xlfunctions import (  # noqa: F401
